@@ -29,6 +29,12 @@ type ParkSched struct {
 	// the number of parked tasks, candidates ordered by task id); later choices come from the PRNG.
 	Script []int
 	Stuck  bool // every unfinished task was blocked and none parked (deadlock among tasks)
+	// Free: the tasks run as ordinary goroutines, all released at once, and Yield only yields the processor. The
+	// scheduler then adds no synchronisation between the tasks - the mode to use under the race detector, which
+	// otherwise sees every hand-over from one task to the next as a happens-before edge.
+	Free   bool
+	freeWG sync.WaitGroup
+	freeGo chan struct{}
 	// StuckStacks: when Stuck, the goroutine dump blocks (state line and frames) of the unfinished tasks
 	StuckStacks []string
 	Blocks int  // decisions taken while some task was blocked on a lock/channel
@@ -59,6 +65,19 @@ func curGid() uint64 {
 
 // Go registers a task; it starts parked and runs only when first chosen.
 func (s *ParkSched) Go(f func()) {
+	if s.Free {
+		if s.freeGo == nil {
+			s.freeGo = make(chan struct{})
+		}
+		s.freeWG.Add(1)
+		start := s.freeGo
+		go func() {
+			defer s.freeWG.Done()
+			<-start
+			f()
+		}()
+		return
+	}
 	t := &ptask{id: len(s.tasks), wake: make(chan struct{}), parked: true}
 	s.tasks = append(s.tasks, t)
 	ready := make(chan struct{})
@@ -82,6 +101,10 @@ func (s *ParkSched) Go(f func()) {
 // Yield parks the calling task until the scheduler releases it. Calls from goroutines that are not
 // tasks return at once.
 func (s *ParkSched) Yield() {
+	if s.Free {
+		runtime.Gosched()
+		return
+	}
 	g := curGid()
 	s.mu.Lock()
 	t := s.byGid[g]
@@ -211,6 +234,13 @@ func blockedGids() map[uint64]bool {
 
 // Run schedules until every task has finished. It returns an error when the tasks deadlock.
 func (s *ParkSched) Run() error {
+	if s.Free {
+		if s.freeGo != nil {
+			close(s.freeGo)
+		}
+		s.freeWG.Wait()
+		return nil
+	}
 	for {
 		// settle: every unfinished task is parked or blocked
 		var cands []*ptask
